@@ -14,6 +14,7 @@ mod duts;
 mod eos;
 mod graphs;
 mod hdlc;
+mod hdlcprop;
 mod kernels;
 mod runners;
 mod spsc;
@@ -81,6 +82,7 @@ fn main() {
         "c09" => blockprops::main(&opts, blockprops::Mode::C09),
         "c10" => blockprops::main(&opts, blockprops::Mode::C10),
         "c11" => kernels::main(&opts),
+        "c13" => hdlcprop::main(&opts),
         "c12" => blockprops::main(&opts, blockprops::Mode::C12),
         other => {
             eprintln!("unknown subcommand {other}");
